@@ -451,3 +451,38 @@ func VH11e_shared_publication() {
 	sock.Close()
 	verif.Quiesce()
 }
+
+// VH19h_concurrent_resize: two goroutines change queue lengths of one socket
+// (READQ-LEN / WRITEQ-LEN, any combination, possibly the same option) at the
+// same moment, with a peer connected and possibly a message arriving, under
+// every schedule in which one goroutine stalls at one synchronisation point
+// until the others are at rest: no option call panics, each returns what its
+// sequential contract allows, and the peer is not disconnected.
+func VH19h_concurrent_resize() {
+	proto := vp.Names[verif.Choice("proto", len(vp.Names))]
+	lab := "C19/" + proto + "/concurrent-resize"
+	sock := vp.New(proto)
+	side := vt.Listen(sock, "a")
+	p1 := side.Peer("p1")
+	opts := []string{mangos.OptionReadQLen, mangos.OptionWriteQLen}
+	a := verif.Choice("optA", 2)
+	b := verif.Choice("optB", 2)
+	verif.Assume(a <= b)
+	var ea, eb error
+	ga := verif.Go("A", func() { ea = sock.SetOption(opts[a], 1) })
+	gb := verif.Go("B", func() { eb = sock.SetOption(opts[b], 3) })
+	if verif.Choice("arrival", 2) == 1 {
+		p1.Deliver(wireFor(proto))
+	}
+	verif.Quiesce()
+	verif.Assert(ga.Done() && gb.Done(), lab+"/option-call-blocks")
+	verif.Assert((ea == nil || ea == mangos.ErrBadOption) && (eb == nil || eb == mangos.ErrBadOption), lab+"/result-outside-sequential-contract")
+	verif.Assert(!p1.Closed, lab+"/peer-disconnected-by-a-queue-length-change")
+	if a == b && ea == nil && eb == nil {
+		v, err := sock.GetOption(opts[a])
+		verif.Assert(err == nil && (v == 1 || v == 3), lab+"/get-returns-neither-of-the-values-set")
+	}
+	verif.Reach("resized")
+	sock.Close()
+	verif.Quiesce()
+}
